@@ -223,7 +223,7 @@ def m_int_bv(ex, st, ty, fn, A):
 
 
 def m_int_cmp(ex, st, callee, A):
-    m = re.search(r'^<(i8|i16|i32|i64|i128|isize|u8|u16|u32|u64|u128|usize|bool|char) as (?:std::cmp::|core::cmp::)?(PartialOrd|PartialEq|Ord)(?:<[^>]*>)?>::(\w+)$', callee)
+    m = re.search(r'^<&*(i8|i16|i32|i64|i128|isize|u8|u16|u32|u64|u128|usize|bool|char) as (?:std::cmp::|core::cmp::)?(PartialOrd|PartialEq|Ord)(?:<[^>]*>)?>::(\w+)$', callee)
     if not m:
         m2 = re.search(r'^(?:std|core)::cmp::impls::<impl (?:std::cmp::|core::cmp::)?(PartialOrd|PartialEq|Ord)(?:<[^>]*>)? for (\w+)>::(\w+)$', callee)
         if not m2:
